@@ -15,7 +15,7 @@ PROP = dict(
           "escapes / bare; non-trivial = the string contains a documented special character, a backslash, a non-UTF-8 byte or is empty. "
           "enum unit: every string over {\\\\,\\\",a,space} of length <=5 plus ~60 hostile strings x 4 forms (exhaustive). texts unit: random "
           "bytes, token soups, valid expressions and destructive edits (unbalanced parenthesis, unterminated quote/regexp, term without ':' "
-          "or value, empty fixed list, unknown order, .unit in projection, .config in filter, an empty quoted key alone or in front of any of these, empty or blank order names); keys include look-alikes of the reserved names (.configs, ".config dir", .units); non-trivial = a destructive edit. Distinct = "
+          "or value, empty fixed list, unknown order, .unit in projection, .config in filter, an empty quoted key alone or in front of any of these, empty or blank order names); keys include look-alikes of the reserved names (.configs, .config dir, .units); non-trivial = a destructive edit. Distinct = "
           "distinct case JSON. flags unit: malformed projection/filter expressions given to benchstat's -filter/-table/-row/-col/-ignore must make the entry point return an error."),
     assumptions=["strconv.Quote produces a valid double-quoted Go string literal"],
     units=[
